@@ -289,7 +289,7 @@ class SimBroker(AsyncBroker):
                 # messages sitting in the failed receiver's hand-over queue are gone with it (the runner is cancelled)
                 for dl in w.taken.get((self.worker, self.gen), []):
                     if dl.id not in w.entered:
-                        w.never.append(dl.id)
+                        w.dropped.add(dl.id)
                 raise SimFault("connection to the broker lost")
             d = srv.queue.popleft()
             d.worker = self.worker
@@ -444,6 +444,8 @@ class SimExecutor(Executor):
 
     def submit(self, fn: Any, /, *args: Any, **kwargs: Any) -> Future:  # type: ignore[override]
         w = self.world
+        if getattr(self, "closed", False):
+            raise RuntimeError("cannot schedule new futures after shutdown")
         f: Future = Future()
         d = DELIVERY.get()
         ctx = contextvars.copy_context()
@@ -474,7 +476,7 @@ class SimExecutor(Executor):
         return f
 
     def shutdown(self, wait: bool = True, *, cancel_futures: bool = False) -> None:
-        return
+        self.closed = True          # like a real pool: nothing can be submitted afterwards
 
 
 class _SyncOutcome:
@@ -656,6 +658,7 @@ class World:
         self.pending_sends = 0
         self.changed: Optional[asyncio.Event] = None
         self.never: List[Any] = []
+        self.dropped: set = set()          # handed over by a subscription that failed before their callback started
         self._own_tasks: List[Any] = []
         self.extra: Dict[str, Any] = {}
         self.ops_pending = 0
@@ -1609,6 +1612,8 @@ def _idle(world: World) -> bool:
         if not info or info["gen"] != gen or not info["alive"]:
             continue
         for dl in dls:
+            if dl.id in world.dropped and dl.id not in world.entered:
+                continue          # went down with the failed listen() call (if its callback did start after all, it counts)
             if dl.id not in ended and dl.id not in world.never:
                 return False
     return True
